@@ -43,8 +43,21 @@ def main():
     chk = framework.Check(a.pid, a.tier, seed)
     try:
         mod.run(chk)
-    except Exception:
-        chk.machinery_errors.append(traceback.format_exc())
+    except Exception as e:
+        # Last line of defence.  Every harness feeds the real code inputs that are valid for the property;
+        # if an exception escapes a harness and was RAISED INSIDE pulsarbat itself, the code under test
+        # refused a valid input: that is a finding (it cannot happen on a tree that passes).  Anything
+        # raised elsewhere (harness, NumPy on a malformed result, TLC) stays a machinery failure.
+        tb = traceback.extract_tb(e.__traceback__)
+        site = tb[-1].filename if tb else ""
+        pkg = os.path.join(os.path.realpath(REPO), "pulsarbat") + os.sep
+        if os.path.realpath(site).startswith(pkg):
+            chk.violation("real-code-raised:%s:%s" % (os.path.basename(site), type(e).__name__),
+                          "pulsarbat raised %r at %s:%d (%s) on an input the harness treats as valid"
+                          % (e, site, tb[-1].lineno, tb[-1].name),
+                          {"kind": "escaped-exception", "traceback": traceback.format_exc()[-3000:]})
+        else:
+            chk.machinery_errors.append(traceback.format_exc())
     return chk.finish()
 
 
